@@ -256,7 +256,7 @@ props = ['''(* C07: total-force measurement is the inverse of force application.
    eng_run         : histories of (positions, engine force field, bias force on the variable), engine convention per
                      cv_samestep, "includecv" = the engine's total force contains the forces Colvars applied. *)
 From Coq Require Import ZArith List Bool Arith Reals Lra.
-From CV Require Import Base.Num Base.RNum C07.TotalForceModel C07.TotalForceProofs.
+From CV Require Import Base.Num Base.RNum C07.TotalForceModel C07.TotalForceProofs C07.DivergenceProofs.
 Import ListNotations.
 Local Open Scope R_scope.
 ''']
